@@ -269,7 +269,8 @@ class Edits:
 # appending (rule, before, after) records to `log`.
 # ------------------------------------------------------------------------------------------
 DROP_ATTRS = ("inline", "must_use", "allow", "track_caller", "cfg_attr", "doc", "cold", "expect",
-              "deprecated", "non_exhaustive", "warn", "deny", "rustfmt", "clippy")
+              "deprecated", "non_exhaustive", "warn", "deny", "rustfmt", "clippy", "error", "from", "source", "serde")
+DROP_DERIVES = ("Error", "Serialize", "Deserialize")
 ENDIAN = {"to_le_bytes": "shim_to_le_bytes", "to_be_bytes": "shim_to_be_bytes",
           "from_le_bytes": "shim_from_le_bytes", "from_be_bytes": "shim_from_be_bytes"}
 
@@ -356,6 +357,19 @@ def rule_pass(text, log, cfgset):
         if name in DROP_ATTRS:
             rec("R6-drop-attr", toks[i].start, toks[c].end, "")
             consumed.update(range(i, c + 1))
+        elif name == "derive" and toks[i + 3].text == "(":
+            o, cl = i + 3, groups[i + 3]
+            ents, st, j = [], o + 1, o + 1
+            while j <= cl:
+                if j == cl or toks[j].text == ",":
+                    if j > st:
+                        ents.append((st, j))
+                    st = j + 1
+                j += 1
+            keep = [text[toks[a].start:toks[b - 1].end] for a, b in ents if toks[b - 1].text not in DROP_DERIVES]
+            if len(keep) != len(ents):
+                rec("R6-derive-filter", toks[i].start, toks[c].end, "#[derive(%s)]" % ", ".join(keep))
+                consumed.update(range(i, c + 1))
     for i, t in enumerate(toks):
         if i in consumed:
             continue
@@ -528,7 +542,7 @@ class FnAnatomy:
 CLAUSE_KW = ("extract", "ret", "requires", "ensures", "decreases", "loop", "before", "after", "head",
              "attr", "inherent", "end", "returns", "opens_invariants", "no_unwind", "sigattr", "tail",
              "closure", "hoist", "drop_nested", "param_mut", "as_trait", "implhdr", "strip_body_attr",
-             "cfg", "mirror", "r2", "r3")
+             "cfg", "mirror", "r2", "r3", "variants")
 
 
 def parse_block(lines):
@@ -738,6 +752,8 @@ def transfer_mirror(rtext, mirror, log, where, variant="main"):
             for k in range(blk.size):
                 a2b[blk.a + k] = blk.b + k
         drift = [(tag, " ".join(code[i1:i2])[:120], " ".join(rt[j1:j2])[:120]) for tag, i1, i2, j1, j2 in sm.get_opcodes() if tag != "equal"]
+        if os.environ.get("VERIF_STRICT_MIRROR"):
+            raise Lost("%s: mirror drift %s" % (where, drift[:6]))
         log.append({"rule": "mirror-drift", "before": "mirror (authoring-time) tokens differ from /repo", "after": drift[:12], "where": where})
     ed = Edits(rtext)
     fa_r = FnAnatomy(rtext)
@@ -823,6 +839,11 @@ def process_block(repo, clauses, log, items_log, cfgset, variant="main"):
             text = rule_r2(text, r.strip(), sublog)
     if it.kind in ("const", "static"):
         text = const_static_lifetime(text, sublog)
+    for k, r in clauses:
+        if k == "variants":
+            if it.kind != "enum":
+                raise Lost("%s: `variants` on a non-enum" % where)
+            text = enum_projection(text, [x.strip() for x in r.split(",")], sublog)
     obl = {}
     mirror = [r for k, r in clauses if k == "mirror"]
     if it.kind == "fn" and mirror:
@@ -847,7 +868,7 @@ def process_block(repo, clauses, log, items_log, cfgset, variant="main"):
         for k, r in clauses[1:]:
             if k == "attr":
                 text = r + "\n" + text
-            elif k in ("end", "inherent", "implhdr"):
+            elif k in ("end", "inherent", "implhdr", "variants", "r2"):
                 pass
             else:
                 raise Lost("%s: contract clauses on a non-fn item (%s)" % (where, k))
@@ -885,6 +906,45 @@ def process_block(repo, clauses, log, items_log, cfgset, variant="main"):
     log.extend(sublog)
     rec["clauses"] = obl
     return text
+
+
+def enum_projection(text, keep, log):
+    """R12: keep only the listed variants of an enum.  Sound for the verified functions: a function
+    that constructs or matches a dropped variant no longer type-checks (exit 2), it cannot silently
+    verify."""
+    T = tokenize(text)
+    G = match_groups(T)
+    i = 0
+    while T[i].text != "enum":
+        i += 1
+    o = i
+    while T[o].text != "{":
+        o += 1
+    c = G[o]
+    parts, st, j = [], o + 1, o + 1
+    while j <= c:
+        if j < c and T[j].text in ("(", "[", "{"):
+            j = G[j] + 1
+            continue
+        if j == c or T[j].text == ",":
+            if j > st:
+                parts.append((st, j))
+            st = j + 1
+        j += 1
+    kept, dropped, found = [], [], set()
+    for a, b in parts:
+        k = a
+        while T[k].text == "#":
+            k = G[k + 1] + 1
+        name = T[k].text
+        if name in keep:
+            kept.append(text[T[a].start:T[b - 1].end]); found.add(name)
+        else:
+            dropped.append(name)
+    if found != set(keep):
+        raise Lost("enum projection: variants %s not found" % sorted(set(keep) - found))
+    log.append({"rule": "R12-enum-projection", "before": "%d variants" % len(parts), "after": "kept %s; dropped %s" % (keep, dropped)})
+    return text[:T[o].end] + "\n    " + ",\n    ".join(kept) + ",\n" + text[T[c].start:]
 
 
 def const_static_lifetime(text, log):
